@@ -713,4 +713,253 @@ theorem scan_inv {c : Cfg} (w : WF c) (i lo hi m : Nat) (sh : Nat → Bool) (tst
         rw [R_succ] at h2; simp [hsh] at h2; exact h2
       · intro h; exact Nat.le_of_lt (hs.R_pos N h)
 
+/-! ### after the scan: the final `tubeEnd` and the flush loop -/
+
+/-- after the scan: a covering hit exists, or the slot of the match holds its complete run -/
+structure FInv (c : Cfg) (i lo hi m : Nat) (st : St) : Prop where
+  nopanic : st.panic = false
+  size : st.tubes.size = c.cap
+  run : Done c i lo hi st ∨
+    (m ≤ (getTube st (i % c.cap)).count ∧ (getTube st (i % c.cap)).qLo ≤ lo ∧ hi ≤ (getTube st (i % c.cap)).qHi)
+
+theorem near_eq {x i n : Nat} (hmod : x % n = i % n) (h1 : x < i + n) (h2 : i < x + n) : x = i := by
+  apply Classical.byContradiction; intro hne
+  rcases mod_eq_far hmod hne with h | h <;> omega
+
+/-- retiring tube `j` after the scan, when `j` can only share the match's slot by being `i` -/
+theorem retire_final {c : Cfg} (w : WF c) (i lo hi m : Nat) (st : St) (j : Nat)
+    (inv : FInv c i lo hi m st) (hthr : (m : Int) ≥ c.minKmers)
+    (hnear : ¬ Done c i lo hi st → j % c.cap = i % c.cap → j = i) :
+    FInv c i lo hi m (retire c st (j : Int)) := by
+  have hcap := w.cap_pos
+  obtain ⟨hpan, hsize, hhits, hframe, hnew, hem⟩ := retire_cases c st j inv.size hcap
+  have hdone : Done c i lo hi st → Done c i lo hi (retire c st (j : Int)) := Done_mono c i lo hi _ _ hhits
+  refine ⟨by rw [hpan]; exact inv.nopanic, by rw [hsize]; exact inv.size, ?_⟩
+  by_cases hd : Done c i lo hi st
+  · exact Or.inl (hdone hd)
+  · rcases inv.run with hd' | ⟨hc, hqlo, hqhi⟩
+    · exact absurd hd' hd
+    · by_cases hslot : j % c.cap = i % c.cap
+      · have hji := hnear hd hslot
+        subst hji
+        left
+        rcases hem with ⟨_, hh⟩ | ⟨hno, _⟩
+        · obtain ⟨x, hx, hxd⟩ := addHit_done c j lo hi st _ _ hqlo hqhi
+          exact ⟨x, by rw [hh]; exact hx, hxd⟩
+        · omega
+      · right
+        rw [hframe _ (fun h => hslot h.symm)]
+        exact ⟨hc, hqlo, hqhi⟩
+
+theorem tubeFlush_cases (c : Cfg) (st : St) (x : Nat) (hsz : st.tubes.size = c.cap) (hcap : 0 < c.cap) :
+    let t := getTube st (x % c.cap)
+    let st' := tubeFlush c st x
+    st'.panic = st.panic ∧ st'.tubes.size = st.tubes.size ∧ (∀ h ∈ st.hits, h ∈ st'.hits) ∧
+    (∀ slot, slot ≠ x % c.cap → getTube st' slot = getTube st slot) ∧
+    (((t.count : Int) ≥ c.minKmers ∧ st'.hits = (addHit c st (x : Int) t.qLo t.qHi).hits) ∨
+     (¬ (t.count : Int) ≥ c.minKmers ∧ st' = st)) := by
+  simp only []
+  unfold tubeFlush
+  simp only []
+  by_cases hthr : ((getTube st (x % c.cap)).count : Int) < c.minKmers
+  · rw [if_pos hthr]
+    exact ⟨rfl, rfl, fun h hh => hh, fun _ _ => rfl, Or.inr ⟨by omega, rfl⟩⟩
+  · rw [if_neg hthr]
+    refine ⟨rfl, by simp [addHit_tubes], fun h hh => addHit_hits c st _ _ _ h hh, ?_, Or.inl ⟨by omega, rfl⟩⟩
+    intro slot hne; rw [getTube_set, if_neg (fun h => hne h.1.symm)]; rfl
+
+/-- the flush loop from index `x`, `n` iterations: if the match's tube `i` lies in `[x, x+n)` and
+    is the first index of its slot from `x` on, a covering hit exists afterwards -/
+theorem flushLoop_done {c : Cfg} (w : WF c) (i lo hi m : Nat) (n x : Nat) (st : St)
+    (inv : FInv c i lo hi m st) (hthr : (m : Int) ≥ c.minKmers)
+    (hx : Done c i lo hi st ∨ x ≤ i) (hin : i < x + n) (hnear : i < x + c.cap) :
+    FInv c i lo hi m (flushLoop c n x st) ∧ Done c i lo hi (flushLoop c n x st) := by
+  have hcap := w.cap_pos
+  induction n generalizing x st with
+  | zero =>
+    rw [flushLoop]
+    rcases hx with hd | hle
+    · exact ⟨inv, hd⟩
+    · omega
+  | succ n ih =>
+    rw [flushLoop]
+    obtain ⟨hpan, hsize, hhits, hframe, hem⟩ := tubeFlush_cases c st x inv.size hcap
+    have hdone : Done c i lo hi st → Done c i lo hi (tubeFlush c st x) := Done_mono c i lo hi _ _ hhits
+    have hbase : (tubeFlush c st x).panic = false ∧ (tubeFlush c st x).tubes.size = c.cap :=
+      ⟨by rw [hpan]; exact inv.nopanic, by rw [hsize]; exact inv.size⟩
+    by_cases hd : Done c i lo hi st
+    · exact ih (x + 1) _ ⟨hbase.1, hbase.2, Or.inl (hdone hd)⟩ (Or.inl (hdone hd)) (by
+        rcases hx with _ | hle
+        · omega
+        · omega) (by omega)
+    · have hle : x ≤ i := hx.resolve_left hd
+      rcases inv.run with hd' | ⟨hc, hqlo, hqhi⟩
+      · exact absurd hd' hd
+      · by_cases hslot : x % c.cap = i % c.cap
+        · have hxi : x = i := near_eq hslot (by omega) hnear
+          subst hxi
+          have hd2 : Done c x lo hi (tubeFlush c st x) := by
+            rcases hem with ⟨_, hh⟩ | ⟨hno, _⟩
+            · obtain ⟨y, hy, hyd⟩ := addHit_done c x lo hi st _ _ hqlo hqhi
+              exact ⟨y, by rw [hh]; exact hy, hyd⟩
+            · omega
+          exact ih (x + 1) _ ⟨hbase.1, hbase.2, Or.inl hd2⟩ (Or.inl hd2) (by omega) (by omega)
+        · have hne : x ≠ i := fun h => hslot (by rw [h])
+          refine ih (x + 1) _ ⟨hbase.1, hbase.2, Or.inr ?_⟩ (Or.inr (by omega)) (by omega) (by omega)
+          rw [hframe _ (fun h => hslot h.symm)]
+          exact ⟨hc, hqlo, hqhi⟩
+
+/-! ### the whole run -/
+
+theorem tdiv_nonpos {x y : Int} (hx : x < 0) (hy : 0 < y) : x.tdiv y ≤ 0 := by
+  have h1 : x = -(-x) := by omega
+  rw [h1, Int.neg_tdiv]
+  have := Int.tdiv_nonneg (show 0 ≤ -x by omega) (show 0 ≤ y by omega)
+  omega
+
+theorem lt_succ_div_mul (a b : Nat) (h : 0 < b) : a < (a / b + 1) * b := by
+  have h1 := Nat.div_add_mod a b
+  have h2 := Nat.mod_lt a h
+  generalize a / b = d at *
+  generalize a % b = r at *
+  rw [Nat.add_mul, Nat.one_mul, Nat.mul_comm d b]; omega
+
+/-- first tube of the final flush (repaired rule): the first tube no tick has retired -/
+def flushFrom (c : Cfg) (qlen : Nat) : Nat := (qlen - c.k + 1 - c.maxError) / c.off
+/-- last tube of the final flush -/
+def flushTo (c : Cfg) (qlen : Nat) : Nat := (c.tlen + (qlen - 1) + (c.off + c.maxError)) / c.off
+
+theorem flushRange_eq {c : Cfg} (w : WF c) (qlen : Nat) (hq : c.k ≤ qlen) (hq1 : 1 ≤ qlen) :
+    flushRange c qlen = (flushFrom c qlen, (flushTo c qlen : Int)) := by
+  unfold flushRange flushFrom flushTo
+  simp only [w.rule, if_true]
+  have hoff := w.off_pos
+  congr 1
+  · by_cases hneg : ((qlen : Int) - c.k + 1) - c.maxError < 0
+    · have h1 := tdiv_nonpos hneg (show (0 : Int) < c.off by omega)
+      have h2 : qlen - c.k + 1 - c.maxError = 0 := by omega
+      rw [h2, Nat.zero_div]
+      generalize (((qlen : Int) - c.k + 1) - c.maxError).tdiv (c.off : Int) = z at h1 ⊢
+      split <;> omega
+    · have hcast : ((qlen : Int) - c.k + 1) - c.maxError = ((qlen - c.k + 1 - c.maxError : Nat) : Int) := by omega
+      rw [hcast]
+      have hd : ((qlen - c.k + 1 - c.maxError : Nat) : Int).tdiv (c.off : Int)
+          = (((qlen - c.k + 1 - c.maxError) / c.off : Nat) : Int) := rfl
+      rw [hd, if_neg (Int.not_lt.mpr (Int.natCast_nonneg _)), Int.toNat_natCast]
+  · have hcast : (c.tlen : Int) + ((qlen : Int) - 1) + ((c.off : Int) + c.maxError)
+        = ((c.tlen + (qlen - 1) + (c.off + c.maxError) : Nat) : Int) := by omega
+    rw [hcast]; rfl
+
+theorem getTube_init (cap : Nat) (slot : Nat) :
+    getTube { tubes := Array.replicate cap default, hits := [] } slot = default := by
+  unfold getTube
+  rw [Array.getElem?_replicate]
+  split <;> rfl
+
+/-- the state of `Filter` after the scan of `N` callbacks, the final `tubeEnd` and the flush -/
+def runFilter (c : Cfg) (ts : Nat → List Nat) (N qlen : Nat) : St :=
+  let l0 : Loop := { st := { tubes := Array.replicate c.cap default, hits := [] }, ticker := (c.off : Int) + c.maxError }
+  let l := scanN c ts l0 N
+  let st := tubeEnd c l.st (qlen - 1)
+  let r := flushRange c qlen
+  flushLoop c ((r.2 + 1 - r.1).toNat) r.1 st
+
+/-- Completeness of the repaired tube state machine for one match: if the shared k-mers of the
+    match (`m ≥ threshold` of them, at query positions within `[lo, hi]`, `hi - lo ≤ maxKmerDist`,
+    all on tube `i`) are among the common k-mers the scan processes, a hit on the diagonal of tube
+    `i` whose query interval contains `[lo, hi + k)` is pushed. -/
+theorem run_complete {c : Cfg} (w : WF c) (i lo hi m : Nat) (sh : Nat → Bool) (tstar : Nat → Nat)
+    (ts : Nat → List Nat) (qlen : Nat)
+    (hk2 : 2 ≤ c.k) (hkt : c.k ≤ c.tlen) (hq : c.k ≤ qlen) (hqe : c.maxError + 1 ≤ qlen)
+    (hs : Shared sh lo hi m) (he : Events c i sh tstar ts)
+    (hthr : (m : Int) ≥ c.minKmers) (hm1 : 1 ≤ m) (hD : (hi : Int) - lo ≤ c.maxKmerDist)
+    (hband : i * c.off ≤ c.tlen + lo) (hhiq : hi ≤ tickPos c i) (hhi : hi + c.k ≤ qlen) :
+    (runFilter c ts (qlen - c.k + 1) qlen).panic = false ∧
+    Done c i lo hi (runFilter c ts (qlen - c.k + 1) qlen) := by
+  have hoff := w.off_pos
+  have hcap := w.cap_pos
+  obtain ⟨hc1, hc2⟩ := w.cap_mul
+  have hlohi : lo ≤ hi := (hs.range lo hs.first).2
+  -- the scan
+  have h0 : LInv c i lo hi m (tickPos c i)
+      { st := { tubes := Array.replicate c.cap default, hits := [] }, ticker := (c.off : Int) + c.maxError } 0 0 := by
+    constructor
+    · refine ⟨rfl, by simp, ?_, fun h => by omega, Or.inr (Nat.zero_le _)⟩
+      intro h; rw [getTube_init] at h
+      have : (default : Tube).count = 0 := rfl
+      omega
+    · refine ⟨0, ?_, Nat.zero_le _, fun j' hj' => by omega⟩
+      show (c.off : Int) + c.maxError = _
+      unfold tickPos; omega
+  have hscan := scan_inv w i lo hi m sh tstar ts _ hs he hthr hm1 hD hband hhiq h0 (qlen - c.k + 1)
+  rw [hs.R_after _ (by omega)] at hscan
+  unfold runFilter
+  simp only []
+  generalize scanN c ts _ (qlen - c.k + 1) = l at hscan
+  have hm := hscan.minv
+  -- after the scan
+  have hf : FInv c i lo hi m l.st := by
+    refine ⟨hm.nopanic, hm.size, ?_⟩
+    rcases hm.run hm1 with hd | ⟨h1, h2, _, h4⟩
+    · exact Or.inl hd
+    · exact Or.inr ⟨h1, h2, h4 rfl⟩
+  -- arithmetic of the end of the query
+  have hJ1 : (flushFrom c qlen) * c.off ≤ qlen - c.k + 1 - c.maxError := Nat.div_mul_le_self _ _
+  have hJ2 : qlen - c.k + 1 - c.maxError < flushFrom c qlen * c.off + c.off := by
+    have := lt_succ_div_mul (qlen - c.k + 1 - c.maxError) c.off hoff
+    rw [Nat.add_mul, Nat.one_mul] at this; exact this
+  have hJcap : (flushFrom c qlen + c.cap) * c.off = flushFrom c qlen * c.off + c.cap * c.off := Nat.add_mul _ _ _
+  have hiJ : ¬ Done c i lo hi l.st → flushFrom c qlen ≤ i := by
+    intro hnd
+    have hle : qlen - c.k + 1 ≤ tickPos c i := hm.late.resolve_left hnd
+    unfold tickPos at hle
+    have : flushFrom c qlen < i + 1 := by
+      unfold flushFrom
+      rw [Nat.div_lt_iff_lt_mul hoff]
+      have : 1 ≤ (i + 1) * c.off := Nat.mul_pos (by omega) hoff
+      omega
+    omega
+  have hiJcap : i < flushFrom c qlen + c.cap := by
+    apply Classical.byContradiction; intro hn
+    have := Nat.mul_le_mul_right c.off (show flushFrom c qlen + c.cap ≤ i by omega)
+    omega
+  -- the final tubeEnd
+  have hr0 : tubeEndIndex c (qlen - 1) = (((qlen - 1 - c.maxError) / c.off : Nat) : Int) := by
+    unfold tubeEndIndex
+    simp only [w.rule, if_true]
+    have hcast : ((c.tlen : Int) - ((c.tlen : Int) - 1) + (((qlen - 1 : Nat) : Int) - 1) - (c.maxError : Int))
+        = ((qlen - 1 - c.maxError : Nat) : Int) := by omega
+    rw [hcast]; rfl
+  have hr0J : flushFrom c qlen ≤ (qlen - 1 - c.maxError) / c.off := by
+    unfold flushFrom; exact Nat.div_le_div_right (by omega)
+  have hr0cap : (qlen - 1 - c.maxError) / c.off < flushFrom c qlen + c.cap := by
+    apply Classical.byContradiction; intro hn
+    have h1 := Nat.mul_le_mul_right c.off (show flushFrom c qlen + c.cap ≤ (qlen - 1 - c.maxError) / c.off by omega)
+    have h2 := Nat.div_mul_le_self (qlen - 1 - c.maxError) c.off
+    omega
+  have hf2 : FInv c i lo hi m (tubeEnd c l.st (qlen - 1)) := by
+    unfold tubeEnd
+    rw [hr0]
+    apply retire_final w i lo hi m l.st _ hf hthr
+    intro hnd hmod
+    have := hiJ hnd
+    exact near_eq hmod (by omega) (by omega)
+  -- the flush
+  rw [flushRange_eq w qlen hq (by omega)]
+  simp only []
+  have hn : ((flushTo c qlen : Int) + 1 - (flushFrom c qlen : Int)).toNat = flushTo c qlen + 1 - flushFrom c qlen := by omega
+  rw [hn]
+  have hiT : i ≤ flushTo c qlen := by
+    unfold flushTo
+    rw [Nat.le_div_iff_mul_le hoff]; omega
+  have hx : Done c i lo hi (tubeEnd c l.st (qlen - 1)) ∨ flushFrom c qlen ≤ i := by
+    by_cases hnd : Done c i lo hi l.st
+    · left
+      unfold tubeEnd; rw [hr0]
+      exact Done_mono c i lo hi _ _ (retire_cases c l.st _ hf.size hcap).2.2.1 hnd
+    · exact Or.inr (hiJ hnd)
+  have hfin := flushLoop_done w i lo hi m (flushTo c qlen + 1 - flushFrom c qlen) (flushFrom c qlen) _ hf2 hthr hx
+    (by omega) hiJcap
+  exact ⟨hfin.1.nopanic, hfin.2⟩
+
 end Biogo.Proofs.FilterRun
